@@ -30,6 +30,9 @@ import (
 // loop can never terminate. That is a logical-step criterion; no clock is involved.
 // ---------------------------------------------------------------------------------------------
 
+// vfc19Backstop is the wall-clock backstop of one guarded call; its firing is only ever INCONCLUSIVE.
+const vfc19Backstop = 180 * time.Second
+
 // vfc19Lap is the sentinel panicked by the hook handler to abort a non-terminating construction.
 type vfc19Lap struct {
 	Section  int64 `json:"section"`
